@@ -306,9 +306,9 @@ def mirror(t):
     if t and t[0] == "c" and t[1] == "f64" and isinstance(t[2], float) and math.isinf(t[2]):
         return ("c", "f64", -t[2])
     if t and t[0] in ("<", "<=") and len(t) == 3 and (data_valued(t[1]) or data_valued(t[2])):
-        # strictness of a comparison between data values only decides which of two equal slots is remembered,
-        # never the extreme value returned: `<` and `<=` are identified here
-        return ("<", mirror(t[2]), mirror(t[1]))
+        # the order is reversed, the strictness kept (in the step `input <= cached` is not `input < cached`: it is certainly true
+        # when the cached slot was just overwritten; where strictness is immaterial — the rescan — the caller applies `unstrict`)
+        return (t[0], mirror(t[2]), mirror(t[1]))
     if t and t[0] == "get" and t[1] in ("high", "low"):
         return ("get", "low" if t[1] == "high" else "high", mirror(t[2]))
     return tuple(mirror(x) for x in t)
@@ -390,7 +390,7 @@ def apply(F, S):
             except symex.Unsupported as e:
                 S.bad("U5", "mirror-unrecognised", fx.label, "cannot compare %s with its Minimum counterpart: UNRECOGNISED idiom (%s)" % (fx.label, str(e)[:140]), loc(fx.span))
                 continue
-            mx = {"ret": mirror(rx["ret"]), **{mirror(k): mirror(v) for k, v in rx["heap"].items()}}
+            mx = {"ret": unstrict(mirror(rx["ret"])), **{mirror(k): unstrict(mirror(v)) for k, v in rx["heap"].items()}}
             mn = {"ret": unstrict(rn["ret"]), **{k: unstrict(v) for k, v in rn["heap"].items()}}
             diffs = [k for k in set(mx) | set(mn) if N.key(mx.get(k)) != N.key(mn.get(k))]
             if diffs:
